@@ -819,10 +819,20 @@ class _Run:
                     return setattr(t, pn, robj)
                 # no running event loop for the duration of this assignment: param's executor runs the coroutine to completion
                 # on a loop of its own before the assignment returns (or raises what the coroutine's result is rejected with)
+                import asyncio
+                made, new_loop = [], asyncio.new_event_loop
+
+                def recording():
+                    made.append(new_loop())
+                    return made[-1]
                 self.loop.uninstall()
+                asyncio.new_event_loop = recording
                 try:
                     setattr(t, pn, robj)
                 finally:
+                    asyncio.new_event_loop = new_loop
+                    for lp in made:         # (the library leaves the loop it made open: selector and socket pair)
+                        lp.close()
                     self.loop.install()
                 self.out.stats['probe.async_reference_assigned_without_running_loop'] += 1
             if noloop and not ok:
